@@ -1,6 +1,7 @@
 package world
 
 import (
+	"math"
 	"fmt"
 
 	ad "github.com/pbenner/autodiff"
@@ -293,11 +294,24 @@ func (w *svWorld) arith() {
 	t, c, n := w.c.Tape, w.c, len(w.m)
 	a, am, sa := w.operand(n)
 	b, bm, sb := w.operand(n)
-	kind := t.Choose(8)
+	kind := t.Choose(10)
+	// the concrete-type variants (VADDV, ...) where receiver and operands have
+	// the same concrete type; the interface methods otherwise
+	typed := t.Bool(1, 3)
 	res := make([]float64, n)
 	var name string
-	if kind >= 6 && n == 0 {
+	if (kind == 6 || kind == 7) && n == 0 {
 		kind = 0
+	}
+	call := func(upper string, iface func(), args ...interface{}) {
+		w.guard(name, func() {
+			if typed && typedCall(w.v, upper, args...) {
+				name = upper
+				c.Count("typed-variant:" + upper)
+				return
+			}
+			iface()
+		})
 	}
 	switch kind {
 	case 6, 7: // matrix-vector products into the sparse receiver
@@ -350,21 +364,21 @@ func (w *svWorld) arith() {
 			res[i] = w.e.norm(am[i] + bm[i])
 		}
 		c.Logf("v.VaddV(%s %s, %s %s)", sa, fmtVals(am), sb, fmtVals(bm))
-		w.guard(name, func() { w.v.VaddV(a, b) })
+		call("VADDV", func() { w.v.VaddV(a, b) }, a, b)
 	case 1:
 		name = "VsubV"
 		for i := range res {
 			res[i] = w.e.norm(am[i] - bm[i])
 		}
 		c.Logf("v.VsubV(%s %s, %s %s)", sa, fmtVals(am), sb, fmtVals(bm))
-		w.guard(name, func() { w.v.VsubV(a, b) })
+		call("VSUBV", func() { w.v.VsubV(a, b) }, a, b)
 	case 2:
 		name = "VmulV"
 		for i := range res {
 			res[i] = w.e.norm(am[i] * bm[i])
 		}
 		c.Logf("v.VmulV(%s %s, %s %s)", sa, fmtVals(am), sb, fmtVals(bm))
-		w.guard(name, func() { w.v.VmulV(a, b) })
+		call("VMULV", func() { w.v.VmulV(a, b) }, a, b)
 	case 3:
 		name = "VaddS"
 		x := val(t, w.e)
@@ -372,7 +386,7 @@ func (w *svWorld) arith() {
 			res[i] = w.e.norm(am[i] + x)
 		}
 		c.Logf("v.VaddS(%s %s, %g)", sa, fmtVals(am), x)
-		w.guard(name, func() { w.v.VaddS(a, ad.NewScalar(w.e.t, x)) })
+		call("VADDS", func() { w.v.VaddS(a, ad.NewScalar(w.e.t, x)) }, a, ad.NewScalar(w.e.t, x))
 	case 4:
 		name = "VmulS"
 		x := val(t, w.e)
@@ -380,7 +394,7 @@ func (w *svWorld) arith() {
 			res[i] = w.e.norm(am[i] * x)
 		}
 		c.Logf("v.VmulS(%s %s, %g)", sa, fmtVals(am), x)
-		w.guard(name, func() { w.v.VmulS(a, ad.NewScalar(w.e.t, x)) })
+		call("VMULS", func() { w.v.VmulS(a, ad.NewScalar(w.e.t, x)) }, a, ad.NewScalar(w.e.t, x))
 	case 5:
 		name = "VsubS"
 		x := val(t, w.e)
@@ -388,7 +402,25 @@ func (w *svWorld) arith() {
 			res[i] = w.e.norm(am[i] - x)
 		}
 		c.Logf("v.VsubS(%s %s, %g)", sa, fmtVals(am), x)
-		w.guard(name, func() { w.v.VsubS(a, ad.NewScalar(w.e.t, x)) })
+		call("VSUBS", func() { w.v.VsubS(a, ad.NewScalar(w.e.t, x)) }, a, ad.NewScalar(w.e.t, x))
+	case 8:
+		// division by a vector without zeros
+		name = "VdivV"
+		bm = nonzero(bm)
+		b = mkVector(w.e, sb == storageName(true), bm)
+		for i := range res {
+			res[i] = w.e.norm(am[i] / bm[i])
+		}
+		c.Logf("v.VdivV(%s %s, %s %s)", sa, fmtVals(am), sb, fmtVals(bm))
+		call("VDIVV", func() { w.v.VdivV(a, b) }, a, b)
+	case 9:
+		name = "VdivS"
+		x := nzval(t, w.e)
+		for i := range res {
+			res[i] = w.e.norm(am[i] / x)
+		}
+		c.Logf("v.VdivS(%s %s, %g)", sa, fmtVals(am), x)
+		call("VDIVS", func() { w.v.VdivS(a, ad.NewScalar(w.e.t, x)) }, a, ad.NewScalar(w.e.t, x))
 	}
 	for i := range res {
 		if res[i] == 0 {
@@ -443,12 +475,15 @@ func (w *svWorld) readers() {
 			return r
 		}, ad.NewScalar(ad.Float64Type, 0))
 	})
-	want := 0.0
+	want, mag := 0.0, 1.0
 	for _, x := range w.m {
 		want += x
+		mag += math.Abs(x)
 	}
 	c.Logf("v.Reduce(+) -> %g", sum.GetFloat64())
-	if sum.GetFloat64() != want {
+	// the order of the traversal is not part of the contract: quotients are not
+	// dyadic, so the sum is compared up to rounding
+	if math.Abs(sum.GetFloat64()-want) > 1e-12*mag {
 		w.fail("model", "Reduce|wrong-value", "Reduce(+) = %g, model sum %g, model %s", sum.GetFloat64(), want, fmtVals(w.m))
 	}
 	same := mkVector(w.e, w.c.Tape.Bool(1, 2), w.m)
